@@ -195,10 +195,14 @@ def _tag(syntax, style, name, attrs, role):
     """role: 'open' | 'cont' | 'close' | 'inline'."""
     a = _join_attrs(syntax, style, attrs) if attrs else ''
     style.last_args = a.strip()
+    # optional blank(s) before the closing delimiter, also on tags without
+    # arguments (<dtml-else >, %(else )[, </dtml-if\n>)
+    trail = '' if style.plain else ['', '', '', ' ', '\t', '\n', '  ',
+                                     ' \n '][style.pick(8)]
     if syntax == 'dtml':
         if role == 'close':
-            return '</dtml-%s%s>' % (name, a)
-        return '<dtml-%s%s>' % (name, a)
+            return '</dtml-%s%s%s>' % (name, a, trail)
+        return '<dtml-%s%s%s>' % (name, a, trail)
     if syntax == 'ssi':
         tail = '' if style.plain else ['', ' ', '\t'][style.pick(3)]
         if role == 'close':
@@ -208,9 +212,9 @@ def _tag(syntax, style, name, attrs, role):
         return '<!--#%s%s%s-->' % (name, a, tail)
     if syntax == 'epfs':
         if role == 'close':
-            return '%%(%s%s)]' % (name, a)
+            return '%%(%s%s%s)]' % (name, a, trail)
         f = '[' if style.plain else '[!'[style.pick(2)]
-        return '%%(%s%s)%s' % (name, a, f)
+        return '%%(%s%s%s)%s' % (name, a, trail, f)
     raise ValueError(syntax)
 
 
